@@ -342,3 +342,307 @@ theorem gate_good (st : Static) (c c' : Ctx) (h : CtxOK c) (hg : gate st c = .ok
     subst hg; exact Good.refl h
 
 end Iauthd.Proto
+
+namespace Iauthd.Proto
+open Iauthd Iauthd.Proto.Hist
+
+/-! ### service table -/
+
+theorem getSvc_mem {svcs : List (Option Svc)} {i : Nat} {srv : Svc} (h : getSvc svcs i = some srv) : some srv ∈ svcs := by
+  unfold getSvc at h
+  rw [List.getD_eq_getElem?_getD] at h
+  cases hi : svcs[i]? with
+  | none => rw [hi] at h; simp at h
+  | some o =>
+    rw [hi] at h
+    simp only [Option.getD_some] at h
+    rw [← h]
+    exact List.mem_of_getElem? hi
+
+theorem SvcsOK.set {svcs : List (Option Svc)} (h : SvcsOK svcs) (i : Nat) (v : Option Svc)
+    (hv : ∀ srv, v = some srv → SvcOK srv) : SvcsOK (setSvc svcs i v) := by
+  intro srv hm
+  unfold setSvc at hm
+  rcases List.mem_or_eq_of_mem_set hm with h1 | h1
+  · exact h srv h1
+  · exact hv srv h1.symm
+
+theorem unrefSvc_ok {c : Ctx} (h : CtxOK c) (i : Nat) : CtxOK (unrefSvc c i) := by
+  unfold unrefSvc
+  split
+  · split
+    · exact h
+    · exact ⟨h.req, h.svcs.set i none (by intro s hs; cases hs), h.rules, h.lim⟩
+  · exact h
+
+theorem unrefSvc_out (c : Ctx) (i : Nat) : (unrefSvc c i).out = c.out ∧ (unrefSvc c i).lim = c.lim := by
+  unfold unrefSvc
+  split
+  · split <;> exact ⟨rfl, rfl⟩
+  · exact ⟨rfl, rfl⟩
+
+/-! ### queries -/
+
+theorem xqUsername_clean {lim : Limits} {r : Req} (h : TextOK lim r) : Clean (xqUsername lim r) := by
+  unfold xqUsername strncpyN
+  dsimp only
+  apply Clean.take
+  split
+  · exact h.authC.take _
+  · split
+    · exact h.userC.take _
+    · split
+      · exact Clean.cons (by decide) (by decide) (h.userC.take _)
+      · exact Clean.nil
+
+def cleanB (s : Bytes) : Bool := s.all fun c => c != 10 && c != 0
+
+theorem clean_of_cleanB {s : Bytes} (h : cleanB s = true) : Clean s := by
+  unfold cleanB at h
+  rw [List.all_eq_true] at h
+  intro c hc
+  have := h c hc
+  simp only [Bool.and_eq_true, bne_iff_ne, ne_eq] at this
+  exact this
+
+theorem clean_append_iff {a c : Bytes} : Clean (a ++ c) ↔ Clean a ∧ Clean c := by
+  constructor
+  · intro h
+    exact ⟨fun x hx => h x (List.mem_append.mpr (Or.inl hx)), fun x hx => h x (List.mem_append.mpr (Or.inr hx))⟩
+  · intro h; exact Clean.append h.1 h.2
+
+theorem b_clean_CHECK : Clean (b "CHECK ") := clean_of_cleanB (by decide)
+theorem b_clean_LOGIN : Clean (b "LOGIN ") := clean_of_cleanB (by decide)
+theorem b_clean_LOGIN2 : Clean (b "LOGIN2 ") := clean_of_cleanB (by decide)
+theorem b_clean_MORE : Clean (b "MORE ") := clean_of_cleanB (by decide)
+theorem b_clean_colon : Clean (b " :") := clean_of_cleanB (by decide)
+theorem sp_clean : Clean sp := clean_of_cleanB (by decide)
+
+theorem xqQueryLines_wf {lim : Limits} {srv : Svc} {cli : XqCli} {r : Req} (hr : ReqOK lim r) (hs : SvcOK srv)
+    (hcred : Clean cli.cred) : ∀ l ∈ xqQueryLines lim srv cli r, wellFormed l = true := by
+  have htagOf : (tagOf (routing r)).isSome = true := by
+    rw [tagOf_routing r hr.head.client.1 hr.head.client.2 hr.serial]; rfl
+  have hq : ∀ payload, Clean payload → wellFormed (xquery srv.name (routing r) payload) = true := fun payload hp =>
+    xquery_wellFormed hs.1 hs.2.1 hs.2.2 (routing_word r) (routing_clean r) (routing_length r hr.serial) htagOf hp
+  have huser : Clean (if srv.ty != .login then xqUsername lim r else []) := by
+    split
+    · exact xqUsername_clean hr.text
+    · exact Clean.nil
+  have hhost : Clean (xqHostname r) := by
+    unfold xqHostname; split
+    · exact hr.head.addrC
+    · exact hr.text.hostC
+  intro l hl
+  unfold xqQueryLines at hl
+  dsimp only at hl
+  rcases List.mem_append.1 hl with h | h
+  · split at h
+    · simp only [List.mem_singleton] at h; subst h
+      apply hq
+      simp only [clean_append_iff]
+      repeat' apply And.intro
+      all_goals first | exact b_clean_CHECK | exact hr.text.nickC | exact sp_clean | exact huser | exact hr.head.addrC
+                      | exact hhost | exact b_clean_colon | exact hr.text.realC
+    · simp at h
+  · split at h
+    · simp at h
+    · split at h
+      · simp only [List.mem_singleton] at h; subst h
+        exact hq _ (Clean.append b_clean_LOGIN hcred)
+      · split at h
+        · simp only [List.mem_singleton] at h; subst h
+          apply hq
+          simp only [clean_append_iff]
+          repeat' apply And.intro
+          all_goals first | exact b_clean_LOGIN2 | exact hr.head.addrC | exact sp_clean | exact hhost | exact huser | exact hcred
+        · simp at h
+
+theorem xqTake_good (c : Ctx) (srv : Svc) (cli : XqCli) (i : Nat) (h : CtxOK c) (hs : SvcOK srv) :
+    CtxOK (xqTake c srv cli i) ∧ (xqTake c srv cli i).out = c.out ∧ (xqTake c srv cli i).lim = c.lim := by
+  unfold xqTake
+  dsimp only
+  have h1 : CtxOK { c with svcs := setSvc c.svcs i (some { srv with queries := srv.queries + 1, refs := srv.refs + 1 }) } :=
+    ⟨h.req, h.svcs.set i _ (by intro s hs'; simp only [Option.some.injEq] at hs'; subst hs'; exact hs), h.rules, h.lim⟩
+  split
+  · exact ⟨h1.upd _ (fun r => ⟨rfl, rfl, rfl, rfl, rfl, rfl, rfl, rfl, rfl, rfl, rfl, rfl⟩), rfl, rfl⟩
+  · exact ⟨h1, rfl, rfl⟩
+
+/-- the loop invariant of `iauth_xquery_check`: the context is fine and the client record's
+    credentials are what the request already carries (or other clean bytes) -/
+theorem xqCheckSlot_good (p : Bool) (c : Ctx) (cli : XqCli) (i : Nat) (h : CtxOK c) (hcred : Clean cli.cred) :
+    Good c (xqCheckSlot p c cli i).1 ∧ Clean (xqCheckSlot p c cli i).2.cred := by
+  unfold xqCheckSlot
+  split
+  · exact ⟨Good.refl h, hcred⟩
+  · rename_i srv hsrv
+    have hs : SvcOK srv := h.svcs srv (getSvc_mem hsrv)
+    split
+    · exact ⟨Good.refl h, hcred⟩
+    · dsimp only
+      have h1 : CtxOK { c with out := c.out ++ xqQueryLines c.lim srv cli c.req } := ⟨h.req, h.svcs, h.rules, h.lim⟩
+      obtain ⟨t1, t2, t3⟩ := xqTake_good _ srv cli i h1 hs
+      refine ⟨⟨t1, ?_⟩, hcred⟩
+      refine ⟨t3, xqQueryLines c.lim srv cli c.req, ?_, xqQueryLines_wf h.req hs hcred⟩
+      rw [t2]
+
+theorem xqCheckLoop_good (p : Bool) (is : List Nat) (c : Ctx) (cli : XqCli) (h : CtxOK c) (hcred : Clean cli.cred) :
+    Good c (xqCheckLoop p is c cli).1 ∧ Clean (xqCheckLoop p is c cli).2.cred := by
+  induction is generalizing c cli with
+  | nil => exact ⟨Good.refl h, hcred⟩
+  | cons i is ih =>
+    unfold xqCheckLoop
+    obtain ⟨g1, c1⟩ := xqCheckSlot_good p c cli i h hcred
+    obtain ⟨g2, c2⟩ := ih (xqCheckSlot p c cli i).1 (xqCheckSlot p c cli i).2 g1.ok c1
+    exact ⟨g1.trans g2, c2⟩
+
+theorem xqCheck_good (p : Bool) (c : Ctx) (h : CtxOK c) : Good c (xqCheck p c) := by
+  unfold xqCheck
+  split
+  · exact Good.refl h
+  · rename_i cli hx
+    obtain ⟨g, hc⟩ := xqCheckLoop_good p (List.range c.svcs.length) c cli h (h.req.text.credC cli hx)
+    refine g.trans ⟨?_, Wrote.of_eq rfl rfl⟩
+    have hk := g.ok
+    refine ⟨hk.req.same rfl rfl rfl rfl rfl rfl rfl rfl rfl rfl rfl ?_, hk.svcs, hk.rules, hk.lim⟩
+    intro cli' hc'
+    simp only [updReq, Option.some.injEq] at hc'
+    rw [← hc']; exact hc
+
+/-! ### passwords -/
+
+theorem scanModes_suffix (pw : Bytes) : ∀ (m m' : ModeAcc) (rest : Bytes),
+    scanModes pw m = some (m', rest) → ∀ c ∈ rest, c ∈ pw := by
+  induction pw with
+  | nil => intro m m' rest h; simp [scanModes] at h
+  | cons x xs ih =>
+    intro m m' rest h
+    unfold scanModes at h
+    split at h
+    · rename_i heq; cases heq
+    · rename_i heq
+      cases heq
+      simp only [Option.some.injEq, Prod.mk.injEq] at h
+      obtain ⟨_, rfl⟩ := h
+      intro c hc; exact hc
+    · rename_i heq
+      cases heq
+      have hsub : ∀ c ∈ rest, c ∈ xs := by
+        split at h
+        · exact ih _ _ _ h
+        · split at h
+          · exact ih _ _ _ h
+          · split at h
+            · exact ih _ _ _ h
+            · split at h
+              · exact ih _ _ _ h
+              · exact ih _ _ _ h
+      intro c hc
+      exact List.mem_cons_of_mem _ (hsub c hc)
+
+theorem checkPasswordShape_clean {pw : Bytes} (hp : Clean pw) {m : ModeAcc} {cred : Bytes}
+    (h : checkPasswordShape pw = some (m, cred)) : Clean cred := by
+  unfold checkPasswordShape at h
+  split at h
+  · cases h
+  · split at h
+    · cases h
+    · split at h
+      · cases h
+      · rename_i m0 rest hs
+        dsimp only at h
+        split at h
+        · simp only [Option.some.injEq, Prod.mk.injEq] at h
+          obtain ⟨_, rfl⟩ := h
+          intro c hc
+          have h1 : c ∈ rest := (List.dropWhile_sublist _).subset hc
+          exact hp c (scanModes_suffix _ _ _ _ hs c h1)
+        · cases h
+
+theorem xqCheckPassword_good (c : Ctx) (cli : XqCli) (pw : Bytes) (h : CtxOK c) (hp : Clean pw) :
+    Good c (xqCheckPassword c cli pw) := by
+  unfold xqCheckPassword
+  split
+  · exact Good.refl h
+  · rename_i m cred hshape
+    dsimp only
+    have hcred : Clean (strncpyN 511 cred) := (checkPasswordShape_clean hp hshape).take _
+    have h1 : CtxOK (updReq c fun r => { r with
+        holds := holdsAfterPassword r.holds cli.modeBang ((cli.modeBang && !m.clrBang) || m.setBang) r.account.isEmpty,
+        xq := some { cli with modeX := (cli.modeX && !m.clrX) || m.setX,
+                              modeBang := (cli.modeBang && !m.clrBang) || m.setBang, cred := strncpyN 511 cred } }) := by
+      refine ⟨h.req.same rfl rfl rfl rfl rfl rfl rfl rfl rfl rfl rfl ?_, h.svcs, h.rules, h.lim⟩
+      intro cli' hc'
+      simp only [updReq, Option.some.injEq] at hc'
+      rw [← hc']; exact hcred
+    have g := xqCheck_good true _ h1
+    exact ⟨g.ok, (Wrote.of_eq rfl rfl).trans g.wrote⟩
+
+theorem xqMoreLoop_good (pw : Bytes) (hp : Clean pw) (is : List Nat) (c : Ctx) (cli : XqCli) (h : CtxOK c) :
+    Good c (xqMoreLoop pw is c cli).1 ∧ (xqMoreLoop pw is c cli).2.cred = cli.cred := by
+  induction is generalizing c cli with
+  | nil => exact ⟨Good.refl h, rfl⟩
+  | cons i is ih =>
+    unfold xqMoreLoop
+    split
+    · exact ih _ _ h
+    · split
+      · exact ih _ _ h
+      · rename_i srv hsrv
+        split
+        · exact ih _ _ h
+        · have hs : SvcOK srv := h.svcs srv (getSvc_mem hsrv)
+          have htagOf : (tagOf (routing c.req)).isSome = true := by
+            rw [tagOf_routing c.req h.req.head.client.1 h.req.head.client.2 h.req.serial]; rfl
+          have hw : wellFormed (xquery srv.name (routing c.req) (b "MORE " ++ pw)) = true :=
+            xquery_wellFormed hs.1 hs.2.1 hs.2.2 (routing_word _) (routing_clean _) (routing_length _ h.req.serial) htagOf
+              (Clean.append b_clean_MORE hp)
+          have g1 : Good c (c.emit (xquery srv.name (routing c.req) (b "MORE " ++ pw))) := ⟨h.emit _, Wrote.emit _ _ hw⟩
+          dsimp only
+          -- the two bookkeeping updates keep the invariant and write nothing
+          have step : ∀ c1 : Ctx, CtxOK c1 →
+              CtxOK { (if cli.ref.isEmpty = true then updReq c1 fun r => { r with soft := r.soft + 1 } else c1) with
+                svcs := setSvc (if cli.ref.isEmpty = true then updReq c1 fun r => { r with soft := r.soft + 1 } else c1).svcs i
+                  (some { srv with refs := srv.refs + 1 }) } ∧
+              ({ (if cli.ref.isEmpty = true then updReq c1 fun r => { r with soft := r.soft + 1 } else c1) with
+                svcs := setSvc (if cli.ref.isEmpty = true then updReq c1 fun r => { r with soft := r.soft + 1 } else c1).svcs i
+                  (some { srv with refs := srv.refs + 1 }) } : Ctx).out = c1.out ∧
+              ({ (if cli.ref.isEmpty = true then updReq c1 fun r => { r with soft := r.soft + 1 } else c1) with
+                svcs := setSvc (if cli.ref.isEmpty = true then updReq c1 fun r => { r with soft := r.soft + 1 } else c1).svcs i
+                  (some { srv with refs := srv.refs + 1 }) } : Ctx).lim = c1.lim := by
+            intro c1 hc1
+            have hsv : ∀ s, (some { srv with refs := srv.refs + 1 } : Option Svc) = some s → SvcOK s := by
+              intro s hs'; simp only [Option.some.injEq] at hs'; subst hs'; exact hs
+            split
+            · have h2 : CtxOK (updReq c1 fun r => { r with soft := r.soft + 1 }) :=
+                hc1.upd _ (fun r => ⟨rfl, rfl, rfl, rfl, rfl, rfl, rfl, rfl, rfl, rfl, rfl, rfl⟩)
+              exact ⟨⟨h2.req, h2.svcs.set i _ hsv, h2.rules, h2.lim⟩, rfl, rfl⟩
+            · exact ⟨⟨hc1.req, hc1.svcs.set i _ hsv, hc1.rules, hc1.lim⟩, rfl, rfl⟩
+          obtain ⟨s1, s2, s3⟩ := step _ g1.ok
+          obtain ⟨g3, hcr⟩ := ih _ { cli with more := maskDel cli.more i, ref := maskAdd cli.ref i } s1
+          exact ⟨g1.trans (Good.trans ⟨s1, Wrote.of_eq s2 s3⟩ g3), hcr⟩
+
+theorem xqPassword_good (c c' : Ctx) (pw : Option Bytes) (h : CtxOK c) (hp : ∀ p, pw = some p → Clean p)
+    (hg : xqPassword c pw = .ok c') : Good c c' := by
+  unfold xqPassword at hg
+  split at hg
+  · simp only [pure, Except.pure, Except.ok.injEq] at hg; subst hg; exact Good.refl h
+  · rename_i cli hx
+    split at hg
+    · split at hg
+      · cases hg
+      · rename_i p
+        simp only [pure, Except.pure, Except.ok.injEq] at hg; subst hg
+        exact xqCheckPassword_good _ _ _ h (hp p rfl)
+    · simp only [pure, Except.pure, Except.ok.injEq] at hg; subst hg
+      have hpc : Clean (pw.getD (b "(null)")) := by
+        cases pw with
+        | none => exact clean_of_cleanB (by decide)
+        | some p => exact hp p rfl
+      obtain ⟨g, hcr⟩ := xqMoreLoop_good (pw.getD (b "(null)")) hpc (List.range c.svcs.length) c cli h
+      refine g.trans ⟨?_, Wrote.of_eq rfl rfl⟩
+      refine ⟨g.ok.req.same rfl rfl rfl rfl rfl rfl rfl rfl rfl rfl rfl ?_, g.ok.svcs, g.ok.rules, g.ok.lim⟩
+      intro cli' hc'
+      simp only [updReq, Option.some.injEq] at hc'
+      rw [← hc', hcr]; exact h.req.text.credC cli hx
+
+end Iauthd.Proto
